@@ -1,12 +1,3 @@
 #!/bin/sh
-# run_all.sh <repo> <workroot> -- keys, arena and lock-free chains in <workroot>/{keys,arena,lockfree}; exit 0 iff all pass.
-set -u
-HERE=$(cd "$(dirname "$0")" && pwd)
-REPO=${1:?usage: run_all.sh <repo> <workroot>}
-ROOT=${2:?usage: run_all.sh <repo> <workroot>}
-rc=0
-"$HERE/run_keys.sh" "$REPO" "$ROOT/keys" || rc=1
-"$HERE/run_arena.sh" "$REPO" "$ROOT/arena" || rc=1
-"$HERE/run_lockfree.sh" "$REPO" "$ROOT/lockfree" || rc=1
-[ $rc -eq 0 ] && echo "run_all: OK" || echo "run_all: FAIL"
-exit $rc
+# run_all.sh <repo> <workroot> -- `prop.sh all <repo> <workroot>`: the three chains in parallel
+exec "$(dirname "$0")/prop.sh" all "$@"
